@@ -179,4 +179,51 @@ theorem container_width_is_model (w : Nat) : ReshapeFns.containerWidth w = w - 2
   unfold ReshapeFns.containerWidth ReshapeFns.minScreenWidth
   exact ⟨by omega, rfl⟩
 
+/-! ### `draw_item`: `(match_start_char, match_end_char)`; `calc_skip_width` -/
+
+def bndD (text : SkimModel.Field.Bytes) (s e : Nat) (left : Bool) : ReshapeFns.Bound → Nat
+  | .open => if left then 0 else text.length
+  | .start => s
+  | .stop => e
+
+/-- the translated `(match_start_char, match_end_char)`; `none` = a slice of `item_text` panics -/
+def interpMatchStartEnd (text : SkimModel.Field.Bytes) : MatchRange → Option (Nat × Nat)
+  | .chars v => some (ReshapeFns.matchStartEndChars v.isEmpty v v.length)
+  | .bytes s e =>
+    match SkimModel.Field.slice text (bndD text s e true ReshapeFns.startSlice.1) (bndD text s e false ReshapeFns.startSlice.2),
+          SkimModel.Field.slice text (bndD text s e true ReshapeFns.diffSlice.1) (bndD text s e false ReshapeFns.diffSlice.2) with
+    | some pre, some mid => some (SkimModel.Field.charCount pre, SkimModel.Field.charCount pre + SkimModel.Field.charCount mid)
+    | _, _ => none
+
+/-- wherever the model says "no panic, result `r`", the translated code returns `r` (the index reads of the `Chars` arm are the only
+    place where the translated code is total and the Rust is not) -/
+theorem match_start_end_is_model (text : SkimModel.Field.Bytes) (m : MatchRange) (r : Nat × Nat) (h : matchStartEnd text m = some r) :
+    interpMatchStartEnd text m = some r := by
+  cases m with
+  | bytes s e =>
+    simp only [matchStartEnd, byteToCharRange] at h
+    simp only [interpMatchStartEnd, ReshapeFns.startSlice, ReshapeFns.diffSlice, bndD, if_true]
+    exact h
+  | chars v =>
+    simp only [matchStartEnd] at h
+    simp only [interpMatchStartEnd, ReshapeFns.matchStartEndChars, ReshapeFns.accAt, Option.some.injEq]
+    cases hv : v.isEmpty with
+    | true => simp [hv] at h ⊢; first | exact h | omega | simp_all
+    | false =>
+      simp only [hv] at h
+      cases h0 : v[0]? <;> cases h1 : v[v.length - 1]? <;> simp [h0, h1] at h ⊢
+      obtain ⟨r1, r2⟩ := r
+      simp only [Prod.mk.injEq] at h ⊢
+      first | exact h | omega | (constructor <;> omega)
+
+theorem match_start_end_none : ReshapeFns.matchStartEndNone = (0, 0) := by decide
+
+/-- `calc_skip_width` against the C11 model -/
+theorem calc_skip_width_is_model (v : SkimModel.Draw.View) (text : List Char) :
+    ReshapeFns.skipTail (match v.skip with
+      | none => ReshapeFns.skipNoPattern
+      | some p => (SkimModel.Draw.skipBefore v.cwj p text).getD ReshapeFns.skipNoMatch) = v.calcSkipWidth text := by
+  unfold SkimModel.Draw.View.calcSkipWidth ReshapeFns.skipTail ReshapeFns.skipNoPattern ReshapeFns.skipNoMatch
+  cases v.skip <;> simp <;> fn_eq
+
 end SkimModel.Positions
